@@ -155,6 +155,15 @@ def _run_driver(out, tier, seed, config, log):
                        stdout=subprocess.PIPE, stderr=subprocess.STDOUT, text=True)
     with open(os.path.join(out, "cargo.log"), "w") as f:
         f.write(r.stdout)
+    if r.returncode != 0 and "could not compile `sfcorpus`" in r.stdout:
+        # the witness corpus (documented uses of the derive / ABI macros) no longer builds against /repo: keep the
+        # compiler's message as a finding and analyse the library alone
+        with open(os.path.join(out, "corpus_build_error.txt"), "w") as f:
+            f.write(r.stdout[-8000:])
+        with open(os.path.join(HARNESS, "sfcorpus", "src", "lib.rs"), "w") as f:
+            f.write("#![allow(warnings)]\n// corpus failed to build; see corpus_build_error.txt\n")
+        r = subprocess.run(["cargo", "+nightly", "check", "--offline", "-q"], cwd=HARNESS, env=env,
+                           stdout=subprocess.PIPE, stderr=subprocess.STDOUT, text=True)
     if r.returncode != 0:
         raise AnalysisError("cargo check under the driver failed (does /repo still compile?):\n" + r.stdout[-6000:])
     for c in ("savefile", "savefile_abi", "sfcorpus"):
